@@ -151,6 +151,33 @@ PLAN = {
                           "_find_matches / _match_v2 bounded",
             "modulo_bounded": ["PieceNode._find_matches", "Metadata._match_v1 / _match_v2", "Assembler.*"],
             "trusted": ["os.mkdir creates only absent directories", "shutil.copy writes its destination only"]},
+    "C03": {"functions": [], "harness": True,
+            "level_text": "FileHasher.__next__ (the hasher behind the command line) proved from source: in hybrid mode each returned v1 piece is "
+                          "SHA-1 of exactly the bytes of that piece followed by zero bytes up to the piece length only when padding is declared "
+                          "(pad), the padding entry has attr 'p' and exactly that length, and a single-file payload (pad off) is hashed as the file "
+                          "alone; that the v1 file list interleaves files and padding entries in tree order (_traverse / assemble) and the second "
+                          "hybrid hasher (HasherHybrid) are decided by the bounded harness against the reference",
+            "level_note": "HasherHybrid.process_file, TorrentAssembler._traverse/assemble, TorrentFileHybrid._traverse/assemble bounded",
+            "modulo_bounded": ["HasherHybrid.process_file", "TorrentAssembler._traverse / assemble", "TorrentFileHybrid._traverse / assemble"],
+            "trusted": ["SHA-1 / SHA-256 uninterpreted", "readinto short only at EOF"]},
+    "C13": {"functions": [], "harness": True,
+            "level_text": "utils.copypath proved (what it writes at dest is a byte-identical copy of the source; parents are created; nothing else "
+                          "changes); the matching logic (Metadata.extract / _map_pieces / _find_matches / _match_v1 / _match_v2, Assembler) is "
+                          "decided by the bounded harness: scattered intact copies with decoys, all three versions, batches, verified with the "
+                          "reference recheck (770 cases quick, 31.6k thorough)",
+            "level_note": "only the copy primitive is proved; completeness of rebuild is bounded.  Known findings: trailing empty files and BEP 47 "
+                          "padded v1 metafiles",
+            "modulo_bounded": ["Metadata._map_pieces", "PieceNode._find_matches", "Metadata._match_v1/_match_v2", "Assembler.*", "_index_contents"],
+            "trusted": ["shutil.copy / os.mkdir effect table"]},
+    "C19": {"functions": [], "harness": True,
+            "level_text": "frame: rebuild reaches the file system only through utils.copypath (call-graph frame checker), whose effects are proved to "
+                          "be confined to dest (a copy) and to newly created directories; that every dest handed to copypath lies below the "
+                          "destination -- i.e. that name and path elements are sanitised (_checked) before they are joined -- is decided by the "
+                          "bounded harness with hostile metafiles (783 cases quick) in a sandbox",
+            "level_note": "containment of os.path.join(dest, full) given sanitised components is not derived symbolically (component path model of "
+                          "DESIGN 5.5-ii not built); bounded",
+            "modulo_bounded": ["rebuild._checked", "Metadata.extract / _parse_tree", "call sites of copypath"],
+            "trusted": ["os.path.join / Path.parts semantics"]},
 }
 
 
